@@ -40,7 +40,7 @@ def plain(ct):
 def shaped(ct, root=True, in_list=False):
     """XML-shaped (the domain of the statement): one root element, element names, values that are
     text without characters XML cannot carry, None, numbers, nested elements, or repeated elements
-    (a list of at least two items that are not lists themselves)"""
+    (a non-empty list of items that are not lists themselves; a one-item list loads back as the item)"""
     t = ct[0]
     if root:
         return t == "d" and len(ct[2]) == 1 and ct[2][0][1][0] != "l" and shaped_entries(ct[2])
@@ -51,7 +51,7 @@ def shaped(ct, root=True, in_list=False):
     if t == "d":
         return shaped_entries(ct[2])
     if t == "l":
-        return (not in_list) and len(ct[2]) >= 2 and all(shaped(x, False, True) for x in ct[2])
+        return (not in_list) and len(ct[2]) >= 1 and all(shaped(x, False, True) for x in ct[2])
     return False
 
 
@@ -188,7 +188,7 @@ class C12(Prop):
             return self.r_leaf(rng)
         if k < 0.75:
             return self.r_dict(rng, depth)
-        n = rng.choice([2, 2, 3])
+        n = rng.choice([1, 2, 2, 3])
         if rng.random() < 0.5:
             return ["l", rng.randint(0, 1), [self.r_leaf(rng) for _ in range(n)]]
         return ["l", rng.randint(0, 1), [self.r_dict(rng, depth - 1) if rng.random() < 0.8 else self.r_leaf(rng) for _ in range(n)]]
@@ -238,6 +238,8 @@ class C12(Prop):
             tx("exh:text", ["d", 1, [["r", ["d", 1, [["a", ["s", s]]]]]]], o)
             if i % 3 == 0:
                 tx("exh:root", ["d", 1, [["r", ["s", s]]]], o)
+            if i % 3 == 2:
+                tx("exh:item1", ["d", 1, [["r", ["d", 1, [["a", ["l", 1, [["s", s]]]]]]]]], o)
             if i % 3 == 1:
                 tx("exh:item", ["d", 1, [["r", ["d", 0, [["a", ["l", 1, [["s", s], ["s", "x" + s]]]], ["Value", ["s", s]]]]]]], o)
         shapes = [
